@@ -9,7 +9,7 @@ style lists) is checked against the implementation's states by `spec.text_hist_o
 import os
 from common import s2t, t2s
 
-OPS = {"text_hist": {}, "store_hist": {}, "strip": {}}
+OPS = {"text_hist": {}, "store_hist": {}, "strip": {}, "hl_real": {"spec_only": True}}
 
 # 1 = behaviour with the proposed fixes applied (see notes/C05.md); VERIF_C05_ASIS=1 -> code as found
 FIXBITS = [0] * 9 if os.environ.get("VERIF_C05_ASIS") else [1] * 9
@@ -100,7 +100,7 @@ def rop(rng, est, wild):
     """one operation and the new length estimate"""
     k = rng.choice([1, 1, 1, 2, 2, 3, 3, 4, 4, 5, 5, 6, 6, 7, 7, 8, 8, 9, 9, 9, 10, 11, 11, 11, 12, 13, 14, 15, 16, 16,
                     17, 17, 18, 18, 19, 20, 21, 21, 22, 24, 25, 25, 26, 26, 26, 27, 28, 29,
-                    rng.choice([23, 10, 1, 26])])
+                    30, rng.choice([23, 10, 1, 26, 30])])
     if k == 1:
         s = rstr(rng, 6)
         if rng.random() < 0.25:     # trailing whitespace runs (rstrip, rstrip_end) and metacharacter tails
@@ -196,6 +196,14 @@ def rop(rng, est, wild):
     if k == 28:
         return [28, s2t(rng.choice(["a", "ab", " ", "abc09", "あb", "a.$", "|+*", "^", "]", "\\", "-a", "^a", "[b", "a-c", "\\b"])),
                 rng.randint(1, 6)], est   # a falsy style is "no style" there
+    if k == 30:
+        # a Highlighter object called on the text (RegexHighlighter with character-class patterns; no pattern =
+        # NullHighlighter), on a str, or on something that is neither
+        pats = [[s2t(rng.choice(["a", "ab", " ", "0123456789", "あb", "a.$", "xyz", "AB_-"])), rng.randint(1, 6)]
+                for _ in range(rng.choice([0, 1, 1, 2, 3]))]
+        kind = rng.choice([0, 0, 0, 0, 0, 1, 2 if rng.random() < 0.3 else 0])
+        s = rstr(rng, 6) if kind == 1 else ""
+        return [30, pats, kind, s2t(s)], (len(clean(s)) if kind == 1 else est)
     # copy_styles: "must be the same length" -- in-domain uses come from rhist, which pins the length first
     if wild:
         return [29, rarg(rng, wild)], est
@@ -225,7 +233,7 @@ def rhist(rng, wild, maxops=12):
 
 
 
-PRODUCING = (5, 6, 7, 8, 9, 10, 11, 22, 23)      # operations that return a Text instead of editing in place
+PRODUCING = (5, 6, 7, 8, 9, 10, 11, 22, 23, 30)      # operations that return a Text instead of editing in place
 
 
 def rinit(rng, wild=False):
@@ -257,7 +265,8 @@ def rstore(rng, wild=False, maxops=12):
         if c < 0.22 or (len(sops) == 0 and c < 0.6):
             # y := a value derived from x with nothing cut (copy, t[:], split/divide with nothing to cut)
             y = rng.choice([n, n, n, rng.randrange(n)])
-            o = rng.choice([[22], [22], [22], [11, [], []], [9, [], 0], [8, s2t("\x00\x00"), 0, 0, 0]])
+            o = rng.choice([[22], [22], [22], [11, [], []], [9, [], 0], [8, s2t("\x00\x00"), 0, 0, 0],
+                            [30, [], 0, []], [30, [[s2t("ab"), rng.randint(1, 6)]], 0, []]])
             sops.append([1, y, x, o])
             if y == n:
                 ests.append(ests[x])
@@ -364,6 +373,16 @@ def generate(rng, tier):
         cases.append(("store_hist", rstore(rng, wild=False, maxops=rng.choice([3, 6, 12]))))
     for _ in range(300 * k):
         cases.append(("store_hist", rstore(rng, wild=True)))
+    for _ in range(400 * k):    # real highlighter objects (spec only: the matches are the regex engine's)
+        txt = rng.choice(["x=12 [a, b] {'k': 3.5}", "GET /a?b=1 200", "<Foo id=3 ok=True>", "None 0x1f 10.0.0.1 'q'",
+                          rstr(rng, 12, "ab12 =[](){}.'\"<>/"), rstr(rng, 10)])
+        init, _n = rinit(rng)
+        if rng.random() < 0.7:
+            init = [s2t(txt), init[1], rspans(rng, len(clean(txt)))]
+            if not init[2]:
+                init[2] = [[0, len(clean(txt)), rng.randint(1, 6)]]
+        which = rng.choice([0, 0, 1, 2, 2])
+        cases.append(("hl_real", [init, which, [rng.randint(0, 6) for _ in range(rng.randint(0, 3))], rng.choice([0, 0, 0, 1])]))
     for _ in range(100 * k):
         cases.append(("strip", s2t(rstr(rng, 12, ALPHA))))
     return cases
@@ -422,6 +441,9 @@ _SCHEMA = {
     10: [_isint], 11: [_isopt, _isopt], 12: [_isint, _ischar], 13: [_isint, _ischar], 14: [_isint, _ischar],
     15: [lambda k: k in (0, 1, 2), _isint, _ischar], 16: [_isint, lambda k: k in (0, 1, 2, 3, 4), _isint],
     17: [_isint], 18: [_isint], 19: [], 20: [_isint], 21: [_isopt], 22: [], 23: [], 24: [_isstr], 25: [_isstr],
+    30: [lambda x: _islist(x, lambda p: isinstance(p, list) and len(p) == 2 and _isstr(p[0]) and len(p[0]) > 0
+                                and _style_ok(p[1]) and p[1] > 0),
+         lambda k: k in (0, 1, 2), _isstr],
     26: [_style_ok, _isint, _isopt], 27: [lambda x: _islist(x, lambda w: _isstr(w) and len(w) > 0) and len(x) > 0, _style_ok],
     28: [lambda x: _isstr(x) and len(x) > 0, lambda k: _style_ok(k) and k > 0], 29: [_istarg],
 }
@@ -478,6 +500,7 @@ def _wf(arg):
 # ---------------------------------------------------------------- implementation side
 _styles = {}
 _rev = {}
+_names = {}
 
 
 def _style(k):
@@ -495,7 +518,12 @@ def _tok(style):
     if isinstance(style, str):
         if style == "":
             return 0
-        raise ValueError("unexpected style string " + style)
+        if style.startswith("s.t"):          # "<base_style><group name>" of the harness's RegexHighlighter
+            return int(style[3:])
+        if style in _names:
+            return _names[style]
+        _names[style] = 100 + len(_names)     # any other style name (ReprHighlighter's): an opaque token
+        return _names[style]
     if id(style) in _rev:
         return _rev[id(style)]
     if style.color is not None and style.bgcolor is None:
@@ -526,8 +554,10 @@ def _state(t):
     from rich.console import Console
     import io
     if not _console:
+        from rich.theme import Theme
+        theme = Theme({f"s.t{k}": (f"color({k})" if k % 2 else f"on color({k})") for k in range(1, 7)})
         _console.append(Console(file=io.StringIO(), width=80, force_terminal=True, color_system="256",
-                                legacy_windows=False, _environ={}))
+                                legacy_windows=False, _environ={}, theme=theme))
     rendered = []
     try:
         for seg in t.render(_console[0]):
@@ -619,9 +649,26 @@ def _apply(t, o):
         t.highlight_regex("[" + re.escape(t2s(o[1])) + "]+", _style(o[2]))
     elif k == 29:
         t.copy_styles(_arg(o[1]))
+    elif k == 30:
+        hl = _highlighter(o[1])
+        return hl(t if o[2] == 0 else t2s(o[3]) if o[2] == 1 else 12345)
     else:
         raise KeyError(k)
     return t
+
+
+def _highlighter(pats):
+    """a real highlighter object: NullHighlighter for no pattern, else a RegexHighlighter subclass whose
+    patterns are named groups over a character class; style name = base_style + group name = "s.t<token>" """
+    import re
+    from rich.highlighter import NullHighlighter, RegexHighlighter
+    if not pats:
+        return NullHighlighter()
+
+    class H(RegexHighlighter):
+        base_style = "s."
+        highlights = ["(?P<t%d>[%s]+)" % (k, re.escape(t2s(cs))) for cs, k in pats]
+    return H()
 
 
 def _mk(init):
@@ -719,8 +766,42 @@ def impl(op, arg):
         signal.alarm(0)
 
 
+REAL_REGEXES = [r"(?P<num>\d+)", r"\b(?P<word>[a-z]+)\b", r"(?P<brace>[\{\[\(\)\]\}])", r"a(?P<after_a>.)",
+                r"(?P<all>.+)", r"(?P<none>q{3})", r"(?P<eq>\w+)=(?P<val>\w+)"]
+
+
+def _impl_hl_real(arg):
+    """[init, which, regex indexes, as_str]: ReprHighlighter() / NullHighlighter() / a RegexHighlighter with
+    ordinary regexes, called on a styled Text (or on the same characters as a str).  Answer: the state of
+    the source before, of the result, of the source afterwards, and whether result and source are one object"""
+    from rich.highlighter import NullHighlighter, RegexHighlighter, ReprHighlighter
+    if not _hl_real_wf(arg):
+        arg = [TRIVIAL[0], 1, [], 0]
+    init, which, idx, as_str = arg
+    src = _mk(init)
+    if which == 0:
+        hl = ReprHighlighter()
+    elif which == 1:
+        hl = NullHighlighter()
+    else:
+        class H(RegexHighlighter):
+            base_style = "x."
+            highlights = [REAL_REGEXES[i % len(REAL_REGEXES)] for i in idx]
+        hl = H()
+    if as_str:
+        from rich.text import Text
+        before = _state(Text(src.plain))[:4]
+        out = hl(src.plain)
+        return [before, _state(out)[:4], before, 0]
+    before = _state(src)[:4]
+    out = hl(src)
+    return [before, _state(out)[:4], _state(src)[:4], 1 if (out is src or out._spans is src._spans) else 0]
+
+
 def _impl(op, arg):
     from common import CRASH_ERRORS, DOC_ERRORS
+    if op == "hl_real":
+        return _impl_hl_real(arg)
     if op == "strip":
         from rich.control import strip_control_codes
         return s2t(strip_control_codes(t2s(arg)))
@@ -752,6 +833,14 @@ def _impl(op, arg):
 
 
 # ---------------------------------------------------------------- model side
+def _hl_real_wf(arg):
+    try:
+        init, which, idx, as_str = arg
+        return _init_ok(init) and which in (0, 1, 2) and _islist(idx, _isnat) and as_str in (0, 1)
+    except Exception:
+        return False
+
+
 def model_case(op, arg):
     if op == "text_hist":
         arg = _wf(arg)
@@ -768,6 +857,12 @@ def spec_cases(op, arg, out):
     if op == "store_hist":
         arg = _wfs(arg)
         return [("spec.store_hist_ok", [arg[0], arg[1], out])]
+    if op == "hl_real":
+        if not (isinstance(out, list) and len(out) == 4):
+            return []
+        if out[3] == 1:      # result and source are one object / share a span list: not a copy
+            return [("spec.hl_ok", [out[0], [[], -1, [], out[0][3]], out[2]])]
+        return [("spec.hl_ok", [out[0], out[1], out[2]])]
     if op != "text_hist":
         return []
     arg = _wf(arg)
